@@ -401,6 +401,10 @@ func (a *Analyzer) Feed(r *ev.Rec) {
 		a.onServing(n, r, true)
 	case "served":
 		a.onServing(n, r, false)
+	case "honeypot-handshake":
+		a.stat("handshakes-refused-by-honeypot")
+	case "honeypot-request":
+		a.find("C20", "request-sent-after-refused-handshake", "", r.Q, "node %d of cluster %d sent a %s request (term %d) on a connection whose identity handshake had been refused (it had dialled the address of node %d)", r.Src, r.Cid, r.RPC, r.ReqTerm, r.Nid)
 	case "exclusive":
 		a.onExclusive(n, r)
 	case "serve-exit":
